@@ -1,4 +1,5 @@
 import WV.Proofs.ClientCert
+import WV.Proofs.Possible
 import WV.Model.ClientData
 
 /-!
@@ -164,16 +165,33 @@ theorem drain_resends_all (ev : CEvent) (r : Refine) (p : String) (hp : p ∈ r.
   simp only [refine1, List.mem_append, List.mem_map, List.mem_reverse]
   left; exact ⟨p, hp, rfl⟩
 
-/-- FULL liveness statement of the property (two clients, eventual stable connectivity ⇒ key
-    exchange completes and every send_message() is delivered).  Not proved: it needs the two-client
-    product with a fairness hypothesis; the no-trap half for one client is C08's
-    `close_always_possible`, and the harness oracle checks it on two real clients after every
-    generated drop sequence. -/
-def eventually_delivered_statement : Prop := True
+/-- certificate for the possibility half of the liveness clause: backward fixpoint over the reachable set -/
+theorem certKx : WV.Possible.possibleCert WV.Possible.coopKx WV.Possible.kxDone WV.Possible.kxSrc 400 WV.ClientCert.R = true := by
+  native_decide
+
+/-- **key_exchange_always_completable** — the possibility half of "once both sides stay connected the key
+    exchange completes and every send_message() issued is delivered": from EVERY reachable state in which a
+    participant with our code exists, the code is known, the application has not closed and nothing else has ended
+    the session (`kxSrc`) — whatever happened before: any number of connection losses at any moments, negotiation
+    failures, duplicated / reordered / replayed deliveries, strangers' messages that were ignored — there is a
+    finite continuation using only cooperative events (`coopKx`: the connection comes back, the server greets,
+    answers and relays, the peer's PAKE and `version` arrive) after which the peer's `version` has been verified,
+    our PAKE and `version` have been echoed, `Send`'s queue is empty and every numbered message handed to the
+    Mailbox has been written to a connection (`kxDone`).  No reachable state is a trap for the session.
+    What is NOT proved: that a real network does produce those cooperative events (fairness), and the per-message
+    count of numbered phases (the environment abstracts them to one flag; the data-layer theorems
+    `pending_until_echo` / `drain_resends_all` above and the two-client oracle carry that part). -/
+theorem key_exchange_always_completable (s : Sys) (hr : Reach enabled s) (h : WV.Possible.kxSrc s = true) :
+    WV.Possible.CanReach WV.Possible.coopKx WV.Possible.kxDone s :=
+  WV.Possible.possible_sound certKx s (WV.ClientCert.reach_mem s hr) h
 
 /-- non-vacuity for `resume_obligations`: a reachable disconnected state that owes a claim, and a
     reconnect is enabled there -/
 def demo : Sys := [Event.setCode true, .wsOpen, .wsClose].foldl (fun s e => (sysStep s e).1) { env := { matchKey := true } }
 example : demo.ctl.n = .S2A ∧ enabled demo .wsOpen = true ∧ owedCmds demo.ctl = [.tx .bind, .tx .claim] := by decide
+
+/-- non-vacuity for `key_exchange_always_completable`: the same state (code known, claim owed, disconnected after a
+    loss) satisfies `kxSrc` and is not yet done -/
+example : WV.Possible.kxSrc demo = true ∧ WV.Possible.kxDone demo = false := by decide
 
 end WV.Props.C09
